@@ -3,6 +3,7 @@
 from __future__ import annotations
 
 from ..rules import structure
+from ..rules import triviality
 from .common import new_run
 
 LEVEL = "other"
@@ -28,4 +29,5 @@ def check(model, tier):
     )
     structure.r17_conform(ctx)
     structure.r14_1_who_may_construct(ctx)
+    triviality.r05_2_noop_predicates_agree(ctx, rule="R17.4")
     return run
